@@ -12,5 +12,5 @@ CONSTANTS
   SysExport = TRUE
   MaxItems = 8
 INVARIANTS Sys_Resolve Sys_Unique Sys_LocalDot Sys_Stable
-PROPERTIES Sys_BoundNeverChanges Sys_FilesIndependent Sys_RenderPure
+PROPERTIES Sys_BoundNeverChanges Sys_FilesIndependent Sys_RenderPure Sys_PlainTouchesNoFile
 CHECK_DEADLOCK FALSE
